@@ -22,6 +22,9 @@ def jobs(tier, seed):
     for L in lens:
         out.append(('parse.tx.len=%d' % L, 'h_parse', dict(cls='TxMsg', L=L)))
         out.append(('parse.rx.len=%d' % L, 'h_parse', dict(cls='RxMsg', L=L)))
+        if L <= 14 or L in (154, 159, 452, 455):       # the same datagram into a decoder object that held a burst message before
+            out.append(('parse.tx.len=%d.reused' % L, 'h_parse', dict(cls='TxMsg', L=L, prime='after-burst')))
+            out.append(('parse.rx.len=%d.reused' % L, 'h_parse', dict(cls='RxMsg', L=L, prime='after-burst')))
     for blen in (148, 444):
         for legacy in (False, True):
             out.append(('trxcon.rx.%d.%s' % (blen, 'legacy' if legacy else 'plain'), 'c_rx', dict(blen=blen, legacy=legacy)))
@@ -61,11 +64,11 @@ def h_enc_rx(ctx, ver, mod, nope, legacy):
     check_seq_eq(ctx, 'octet', raw_of(data), want)
 
 
-def h_parse(ctx, cls, L):
+def h_parse(ctx, cls, L, prime='fresh'):
     T = env.load(ctx, 'data_msg')
     dm = T.data_msg
     o = ctx.ints('o', L, 0, 255)
-    d = getattr(dm, cls)()
+    d = c01.primed(ctx, T, getattr(dm, cls), prime)
     accepted = True
     with env.symbolic(ctx), ctx.no_raise('parse:only-ValueError', allowed=(ValueError,)):
         try:
